@@ -8,7 +8,8 @@ func init() {
 		"DEGLOOP": true, "RANGEIDX": true, "ALIASHAZ": true, "METAOUT": true, "OUTREAD": true, "BUFSTATE": true, "BUFALIAS": true,
 		"FIRSTITER": true, "OUTPARAMW": true, "CLONE": true, "LOSTSTORE": true, "SHARED": true, "COPYF": true, "CTORAGREE": true,
 		"READONLY": true, "JAG": true, "LAZYRED": true, "ERRDROP": true, "KEYGET": true, "FWDNEW": true, "LOOPACC": true, "NOISE": true,
-		"ERRREUSE": true, "RINGPNIL": true, "GUARD": true, "AGGSYM": true, "IMMUT": true, "IMMUTX": true}
+		"ERRREUSE": true, "RINGPNIL": true, "GUARD": true, "AGGSYM": true, "IMMUT": true, "IMMUTX": true,
+		"KERNELLEN": true, "CROSSLAZY": true, "NEGBOUND": true, "STRIDEGRID": true, "CEILLOG": true}
 	for _, r := range core.Registry {
 		if wide[r.Name] {
 			r.Wide = true
